@@ -11,6 +11,8 @@ def run(rep, fb, tier):
     forward.rule_generator_protocol(rep, fb)
     forward.rule_same_name(rep, fb, select=lambda f: f["cls"] in ("VirtualArray", "PartitionedArray", "IrregularlyPartitionedArray", "SliceGenerator", "ArrayGenerator", "ArrayCache"), floor=40, name="FORWARD.same-name:virtual")
     safety.rule_width(rep, fb, select=lambda f: f["cls"] in ("VirtualArray", "PartitionedArray", "IrregularlyPartitionedArray", "SliceGenerator", "ArrayGenerator", "ArrayCache"), floor=1, name="WIDTH.implicit-narrowing:virtual")
+    from ..rules import lints
+    lints.rule_virtual_depths(rep, fb)
     pyrules.rule_py_delegation(rep, "partition.py", "PartitionedArray", floor=25)
     pyrules.rule_py_dispatch(rep, modules=["partition.py", "_util.py", "operations/structure.py"], floor=20)
     rep.units = fb.units + ["src/awkward/partition.py, _util.py, operations/structure.py (ast)"]
